@@ -2,9 +2,15 @@
 
 Spec: spec/PonyCache.tla with one thread: a program is a *history* - executions of queries / raw statements with
 parameter values and types from the spec's alphabets, interleaved with Modify, Flush, Commit, NewSession, Rollback.
+A query may be a *chain* (spec/PonyCacheQueries.tla): a base query that bakes a parameter value in (string slice bound,
+string index, getattr name) followed by .filter/.where/.order_by lambda steps - every prefix of the chain has its own
+translator-cache entry, a chained translator is a copy of its parent's and inherits the baked-in value; the same code
+objects are executed again with other values, alone and as prefixes of other chains.  The harness builds the chains
+from the spec's table (one Python code object per generator / lambda).
 TLC (i) proves Transparent (every answer equals Cold(q, p, data): the answer on empty caches) on the `fixed`
 design, (ii) refutes it on the design as it is (known findings: Query._aggregate consults the result cache before
-flushing; adapt_sql stores under the %-doubled text), (iii) enumerates every history of the bounded alphabet with,
+flushing; adapt_sql stores under the %-doubled text) and on seeded design errors (e.g. CompareEarlier=FALSE: a cached
+chained translator is only compared on the values its own step baked in), (iii) enumerates every history of the bounded alphabet with,
 per step, the required answer term `req` and the answer term `got` the as-is model predicts.
 
 Binding R: each history is run twice against the real code - warm (caches as they evolve, emptied only at the start
@@ -15,6 +21,10 @@ every history).  Histories of raw statements alone are replayed on every paramst
 the adapted SQL text and arguments handed to the DB-API are the answer); everything else on a real SQLite database.
 A disagreement is the known finding only where the as-is model predicts exactly that stale answer.
 """
+import os
+import sys
+import time
+
 from .. import mockdb
 from ..tlc import MachineryError
 from .. import cachemodel_c22 as cm
@@ -23,6 +33,16 @@ from pony.orm import core
 from pony.orm.core import db_session
 
 LEVEL = 'model_checking'
+
+_T0 = [time.time()]
+
+
+def _phase(name):
+    """Wall time per phase on stderr when VERIF_TIMING is set (tuning of the tiers' bounds)."""
+    if os.environ.get('VERIF_TIMING'):
+        now = time.time()
+        sys.stderr.write('C05 phase %-28s %6.1f s\n' % (name, now - _T0[0]))
+        _T0[0] = now
 
 PROVIDER_OF_STYLE = {'qmark': 'sqlite', 'format': 'mysql', 'pyformat': 'postgres', 'named': 'oracle'}
 RAW_QUERIES = ('raw_where', 'raw_pct', 'raw_pct2')
@@ -146,6 +166,43 @@ def known_signature(q):
     return None
 
 
+def check_baked(ctx, real, behs, runs):
+    """Self-check of the spec's model of the translator (which steps bake the parameter value in, and that a chained
+    translator inherits the value) against the real one: translator.fixed_param_values after every step of every chain
+    that occurs, on empty caches.  Only meaningful where the real code answers alike warm and cold (a disagreement there
+    is reported as a violation of the property, not as a fault of the model)."""
+    for b, warm, cold in runs:
+        if warm != cold and any(o['op'] == 'exec' and o['q'] in cm.CHAINS for o in b['prog'][0]):
+            return 0
+    sample = {}
+    for b in behs:
+        for op in b['prog'][0]:
+            if op['op'] == 'exec' and op['q'] in cm.CHAINS:
+                sample.setdefault(op['q'], op['p'])
+    db = real.db
+    for q, p in sorted(sample.items()):
+        steps = cm.CHAINS[q]['steps']
+        clear_process_caches(db)
+        with db_session:
+            v = cm.decode(p)
+            query = cm.BASES[steps[0]['code']](db.T, v)
+            for i, st in enumerate(steps):
+                if i:
+                    query = cm.STEPS[st['code']][1](query, v)
+                spec_fixed = [v for s2 in steps[:i + 1] if s2['bakes']]
+                real_fixed = list(query._translator.fixed_param_values.values())
+                if spec_fixed != real_fixed:
+                    raise MachineryError('the spec says the translator of %s for %r carries the baked-in values %r, the real one carries %r'
+                                         % (st['query'], v, spec_fixed, real_fixed))
+    clear_process_caches(db)
+    return len(sample)
+
+
+def rerun_other_value(prog):
+    ex = [(o['q'], o['p']['t'], o['p']['v']) for o in prog if o['op'] == 'exec' and o['q'] in cm.CHAINS]
+    return any(a[:2] == b[:2] and a[2] != b[2] for a in ex for b in ex)
+
+
 def replay_histories(ctx, behs, stats):
     real = RealEnv(ctx)
     mock = MockEnv()
@@ -164,6 +221,7 @@ def replay_histories(ctx, behs, stats):
                 cold = real.run(prog, True)
                 stats['on_sqlite'] += 1
             runs.append((b, warm, cold))
+        stats['chains_whose_baked_values_match_the_real_translator'] = check_baked(ctx, real, behs, runs)
     finally:
         real.close()
 
@@ -184,6 +242,19 @@ def replay_histories(ctx, behs, stats):
                                  show_op(ob['op']), cold[i], i + 1, show(prog), answer[k][0], show(answer[k][1]['prog'][0])),
                              {'prog': prog, 'style': b['style'], 'other': answer[k][1]['prog'][0]})
     stats['distinct_answer_terms'] = len(answer)
+    # vacuity guard: a stale translator of a chain can only show if the answer depends on the baked-in value
+    by_chain = {}
+    for b, warm, cold in runs:
+        for i, ob in enumerate(b['obs'][0]):
+            q = ob['op']['q']
+            if ob['op']['op'] == 'exec' and q in cm.CHAINS and cm.CHAINS[q]['baked']:
+                by_chain.setdefault(q, {}).setdefault(cm.term_key([ob['op']['p']['t'], ob['req']['data']]), {})[ob['op']['p']['v']] = cm.term_key(cold[i])
+    by_chain = {q: d for q, d in by_chain.items() if any(len(v) > 1 for v in d.values())}       # executed with several values
+    blind = sorted(q for q, d in by_chain.items() if all(len(set(v.values())) < 2 for v in d.values()))
+    if blind:
+        raise MachineryError('the alphabet cannot expose a stale translator of %s: on the same data the answers for different '
+                             'baked-in values of the same type are all alike' % ', '.join(blind))
+    stats['chains_whose_answer_depends_on_the_baked_value'] = len(by_chain)
     fams = {}
     for b, warm, cold in runs:
         for o in warm:
@@ -216,21 +287,32 @@ def replay_histories(ctx, behs, stats):
             ctx.mismatch(sig, what, {'prog': prog, 'style': b['style']})
             break
         else:
-            if len(ctx.samples) < 5 and stats['executions'] % 53 == 0:
+            chain = any(o['op'] == 'exec' and o['q'] in cm.CHAINS for o in prog) and rerun_other_value(prog)
+            if (len(ctx.samples) < 3 and stats['executions'] % 53 == 0) or (chain and stats.setdefault('_chain_samples', 0) < 2):
+                if chain:
+                    stats['_chain_samples'] += 1
                 ctx.sample({'history': show(prog), 'paramstyle': b['style'], 'answers_warm_equal_cold': [w for w in warm if w]})
+    stats.pop('_chain_samples', None)
 
 
 def run(ctx):
     quick = ctx.tier == 'quick'
     sc = ctx.scratch
+    _phase('start')
+    cm.load_chains(sc)
+    _phase('chain table')
     styles = '{"qmark", "format", "pyformat"}' if quick else '{"qmark", "format", "pyformat", "named"}'
     qfams = '{"QB", "QT", "QA", "QS", "QM", "QD", "QR"}'
     tfams = '{"Baked", "Types", "Aggr", "Str", "M2M", "Dyn", "Raw"}'
+    cfams = '{"QC", "QK", "QW"}'        # query chains
     all_ops = cm.strset(['ModIns', 'ModUpd', 'Flush', 'Commit', 'NewSession', 'Rollback'])
     ops3 = cm.strset(['ModIns', 'Flush', 'Commit'])
     ops4 = cm.strset(['ModIns', 'Flush', 'Commit', 'NewSession'])
 
-    # (i) Transparent holds on the repaired design (source-tree / extractor caches modelled as steps)
+    # (i) Transparent holds on the repaired design (source-tree / extractor caches modelled as steps).  The chain
+    # alphabets are proved in (iii): what differs between the design as it is and the repaired one concerns threads,
+    # aggregates and raw statements, none of which a chain alphabet contains - the run that enumerates their histories
+    # checks all invariants on them as well.
     chk = dict(NThreads=1, MemoSteps='TRUE', ParamStyles=styles, MaxExec=4, MaxMod=2)
     if quick:
         res = cm.check(sc, tag='c05-fixed', Fams=qfams, SessOps=all_ops, MinLen=3, MaxLen=3, **dict(chk, **cm.FIXED))
@@ -238,6 +320,7 @@ def run(ctx):
         res = cm.check(sc, tag='c05-fixed', Fams=tfams, SessOps=all_ops, MinLen=4, MaxLen=4, **dict(chk, **cm.FIXED))
     states, transitions = res.distinct, res.generated
 
+    _phase('check fixed')
     # (ii) refuted on the design as it is; seeded design errors are refuted too
     refuted = {}
     if not quick:
@@ -250,12 +333,20 @@ def run(ctx):
             inv = 'RightTranslator' if sw == 'CompareFixed' else 'Transparent'
             cm.refute(sc, inv, tag='c05-seed-' + sw, Fams='{"%s"}' % fam, **dict(hist, **dict(cm.FIXED, **{sw: 'FALSE'})))
             refuted['seeded: %s=FALSE' % sw] = inv + ' refuted'
+        for inv in ('RightTranslator', 'Transparent'):      # only the values baked in by the chained step itself are compared
+            _, cex = cm.refute(sc, inv, tag='c05-seed-earlier', Fams=cfams, inv=['TypeOK', inv],
+                               **dict(hist, **dict(cm.FIXED, CompareEarlier='FALSE')))
+            refuted['seeded: CompareEarlier=FALSE: %s' % inv] = cex[0]
 
+    _phase('refutations')
     # (iii) every history of the bounded alphabet, with the as-is model's prediction
     exports = []
     if quick:
         exports.append(dict(Fams=qfams, SessOps=ops4, MinLen=4, MaxLen=4))
+        exports.append(dict(Fams=cfams, SessOps=ops4, MinLen=3, MaxLen=3, MemoSteps='TRUE', inv=cm.INVARIANTS))
     else:
+        exports.append(dict(Fams=cfams, SessOps=ops4, MinLen=4, MaxLen=4, MemoSteps='TRUE', inv=cm.INVARIANTS))
+        exports.append(dict(Fams='{"Chain"}', SessOps=all_ops, MinLen=3, MaxLen=3, MemoSteps='TRUE', inv=cm.INVARIANTS))
         exports.append(dict(Fams=qfams, SessOps=ops3, MinLen=5, MaxLen=5))
         exports.append(dict(Fams=tfams, SessOps=all_ops, MinLen=4, MaxLen=4))
     behs, seen = [], set()
@@ -263,6 +354,9 @@ def run(ctx):
     for i, e in enumerate(exports):
         bs, r = cm.export(sc, tag='c05-exp%d' % i, NThreads=1, ParamStyles=styles, MaxExec=5, MaxMod=2, **e)
         exp_states += r.distinct
+        if e.get('inv'):
+            states, transitions = states + r.distinct, transitions + r.generated
+        _phase('export %d (%d histories)' % (i, len(bs)))
         for b in bs:
             k = cm.term_key([b['prog'], b['style']])
             if k not in seen:
@@ -277,7 +371,15 @@ def run(ctx):
 
     stats = {'on_sqlite': 0, 'on_mock_providers': 0, 'executions': 0, 'warm_cold_disagreements': 0,
              'asis_deviation_predicted_but_same_value': 0}
+    chain_hist = [b for b in behs if any(o['op'] == 'exec' and o['q'] in cm.CHAINS for o in b['prog'][0])]
+    stats['histories_with_query_chains'] = len(chain_hist)
+    stats['query_chains'] = sorted(set(o['q'] for b in chain_hist for o in b['prog'][0] if o['q'] in cm.CHAINS))
+    # histories that execute the same chain (same code objects) twice with different values of the same type
+    stats['histories_rerunning_a_chain_with_another_value'] = sum(1 for b in chain_hist if rerun_other_value(b['prog'][0]))
+    if not stats['histories_rerunning_a_chain_with_another_value']:
+        raise MachineryError('no exported history executes a query chain twice with different values')
     replay_histories(ctx, behs, stats)
+    _phase('replay')
 
     ctx.coverage.update({
         'states': states, 'transitions': transitions,
@@ -296,11 +398,14 @@ def run(ctx):
         'execution; entity-level SQL caches (find/load/insert/update) are not part of the property',
         'raw DML through db.execute is not in the alphabet (bypasses the session by design)',
         'providers other than SQLite are exercised down to the SQL text and arguments handed to the DB-API (no servers)',
-        'answers are compared as bags; errors by family',
+        'answers are compared as bags (as sequences where a step of a chain orders them); errors by family',
+        'one parameter per execution: every step of a chain that takes a parameter takes that one; chains of at most 3 steps, '
+        'steps are lambdas with arguments (order_by(1), keyword filters, argument-less lambdas are not in the alphabet)',
     ]
 
 
 def replay(ctx, rep):
+    cm.load_chains(ctx.scratch)
     prog, style = rep['prog'], rep.get('style', 'qmark')
     if is_mock(prog):
         env = MockEnv()
